@@ -259,8 +259,7 @@ def registry(cid, tier='thorough'):
                               'no_public': 'not old(%s) ==> result._point is None' % given if not mont else 'True',
                               'private': '(result._d is None) == (%s is None and %s is None)' % (D, S),
                               'seed': 'result._seed == %s' % S},
-                     modifies=['kwargs'], inline=[KEY + '.pointQ', KEY + '.d', KEY + '.seed', KEY + '.has_private'],
-                     opaque=(['spec.keys.low_order_u'] if False else [])))
+                     modifies=['kwargs'], inline=[KEY + '.pointQ', KEY + '.d', KEY + '.seed', KEY + '.has_private']))
     # ------------------------------------------------------------------------------------------------ generate (C18, C05)
     # the private part is a function of the caller's tape only: NIST d = random_range(1, order - 1) (rejection sampler, no modulo),
     # Ed / X curves: the seed is EXACTLY the first 32 / 57 / 56 tape octets of ONE call; the key satisfies the invariant of its type
@@ -282,7 +281,8 @@ def registry(cid, tier='thorough'):
         # X25519 / X448: the public point is computed and validated; refusal of a low-order d*G is part of the code path (it cannot
         # happen for a clamped scalar, which is group theory outside this model)
         q_ = mul_G(cid, 'spec.keys.scalar_of_seed(%d, rnd_tape(0))' % cid)
-        graises['ValueError'] = ('only_if', 'kwargs.get("curve") not in %r or True' % (EC.ALL_NAMES,))
+        graises['ValueError'] = ('only_if', 'kwargs.get("curve") not in %r or "randfunc" not in kwargs or %s == -1 or spec.keys.low_order_u(%d, %s)'
+                                 % (EC.ALL_NAMES, q_, cid, q_))
     reg.add(Contract(K + 'generate', params={'kwargs': '|'.join(gshapes)}, result=OKEY, raises=graises, ensures=gens,
                      requires=['rnd_cursor() == 0'], modifies=['kwargs'], inline=[KEY + '.pointQ', KEY + '.d', KEY + '.seed', KEY + '.has_private']))
     add_decoders(reg, cid)
@@ -420,7 +420,7 @@ def add_decoders(reg, cid):
                               'sign': '%s(result[0]) %% 2 == %s' % (iv, sg),
                               'x': '%s != 1 ==> (%s(result[0]) == spec.keys.sqrt_mod(%s, %d) or %s(result[0]) == %d - spec.keys.sqrt_mod(%s, %d))' % (y, iv, x2, P1, iv, P1, x2, P1),
                               'neutral': '%s == 1 ==> %s(result[0]) == 0' % (y, iv)},
-                     modifies=[]))
+                     modifies=[], result='tuple(%s,%s)|tuple(int,int)' % (OINT, OINT)))
     y, sg = 'spec.keys.ed448_y(encoded)', 'spec.keys.ed448_sign(encoded)'
     x2 = 'spec.keys.ed448_x2(%s)' % y
     v4 = '((((%s * %s) %% %d) * %d - 1) %% %d)' % (y, y, P4, SK.ED448_D, P4)
@@ -431,7 +431,7 @@ def add_decoders(reg, cid):
                               'sign': '%s(result[0]) %% 2 == %s' % (iv, sg),
                               'x': '%s != 1 ==> (%s(result[0]) == spec.keys.sqrt_mod(%s, %d) or %s(result[0]) == %d - spec.keys.sqrt_mod(%s, %d))' % (y, iv, x2, P4, iv, P4, x2, P4),
                               'neutral': '%s == 1 ==> %s(result[0]) == 0' % (y, iv)},
-                     modifies=[]))
+                     modifies=[], result='tuple(%s,%s)|tuple(int,int)' % (OINT, OINT)))
     # RFC 7748 5: u-coordinates: 32 octets with the top bit masked / 56 octets, little endian; any other length is refused
     reg.add(Contract(K + '_import_curve25519_public_key', params={'encoded': 'bytes'}, raises={'ValueError': ('iff', 'len(encoded) != 32')},
                      ensures={'u': 'result._value == spec.keys.x25519_u(encoded)'}, modifies=[], result=OINT))
@@ -559,3 +559,41 @@ def units(prop, tier):
         for cid in EC.ALL_CIDS:
             out.append(pyvc_unit(prop, 'key.ecc.generate.%s' % EC.LABEL[cid], lambda cid=cid: registry(cid, tier), [K + 'generate']))
     return out
+
+
+# ======================================================================================================================================
+# Vacuity / strength checks (one textual mutation of lib/Crypto/PublicKey/ECC.py or _montgomery.py / _nist_ecc.py on a scratch copy):
+#   C05 key.ecc.init.ed25519     `tmp[0] &= 0xF8` -> `0xF0` (Ed25519 branch)                     exit 1  EccKey.__init__.ensures.d
+#   C05 key.ecc.init.p256        `if not 1 <= self._d < order` -> `<= order`                      exit 1  __init__.raises_iff.ValueError.if + ensures.range
+#   C05 key.ecc.init.ed448       `tmp[56] = 0` -> `tmp[56] & 1`                                   exit 1  __init__.ensures.d
+#   C05 key.ecc.init.curve448    `len(self._seed) != 56` -> `< 56`                                exit 1  __init__.raises_iff.ValueError.if + ensures.seed_len
+#   C05 key.ecc.init.p256        local `count` renamed                                            exit 0
+#   C05 key.ecc.construct.curve448  private/public match test disabled (= defect D6 back)        exit 1  construct.raises_iff.ValueError.if + ensures.valid
+#   C05 key.ecc.construct.p256   `pub_key.xy != (point_x, point_y)` -> `pub_key.x != point_x`    exit 1  construct.raises_iff.ValueError.if + ensures.valid
+#   C05 key.ecc.construct.curve25519  `curve.validate(new_key.pointQ)` removed                    exit 1  construct.raises_iff.ValueError.if + ensures.valid (14 obligations)
+#   C05 key.ecc.validate         `p2 + 1,` dropped from the X25519 deny list                      exit 1  validate_x25519.raises_iff.ValueError.if (native replay confirmed)
+#   C05 key.ecc.validate         `p + 1,` dropped from the X448 deny list                         exit 1  validate_x448.raises_iff.ValueError.if (native replay confirmed)
+#   C05 key.ecc.validate         `except ValueError: valid = False` -> `True`                     exit 1  validate_x25519.raises_iff.ValueError.if (x = 0, inf = True; confirmed)
+#   C05 key.ecc.curves.nist      last digit of the P-256 order changed                            exit 1  p256_curve.ensures.order + .context
+#   C05 key.ecc.validate         local `p2` renamed                                               exit 0
+#   C05 key.ecc.sec1.p256        parity test `y.is_odd()` -> `is_even()`                          exit 2  (compressed_y / parity undecided: z3 times out on the non-linear
+#                                                                                                          counter-model; NOT a pass -- see below)
+#   C05 key.ecc.decode.curve25519  `x[31] &= 0x7F` -> `0x3F`                                      exit 1  _import_curve25519_public_key.ensures.u
+#   C05 key.ecc.decode.ed25519   sign selection `!=` -> `==`                                      exit 2  (ensures.sign / range undecided, solver time-out; not a pass)
+#   C18 key.ecc.generate.p256    `randfunc=randfunc` not passed to random_range                   exit 1  generate.ensures.d
+#   C18 key.ecc.generate.ed448   `randfunc(57)` -> `randfunc(56) + b'x'`                          exit 1  generate.ensures.seed
+#   C18 key.ecc.generate.curve25519  `randfunc(32)` -> `randfunc(16) + randfunc(16)`              exit 1  generate.ensures.seed (two tape reads)
+#   C18 key.ecc.generate.p256    local `curve_name` renamed                                       exit 0
+#   C08 key.ecc.export.p256      compressed prefix: `y.is_odd()` -> `is_even()`                   exit 1  _export_SEC1.ensures.compressed
+#   C13 key.ecc.import_der       second except tuple without IndexError                           exit 1  _import_der.raises_only.IndexError
+#
+# NOT PROVED: the four DER decoders behind ECC._import_der (_import_subjectPublicKeyInfo, _import_x509_cert, _import_rfc5915_der, _import_pkcs8): their raises
+#             sets are stated as weak ASSUMED contracts in cascade_registry (curve lookup loops over _curves.items() with a symbolic OID, explicit-tag members,
+#             DerBitString); _import_openssh_public / _import_openssh_private_ecc (bytes.split, base64, bcrypt container): bounded only (handler totality D4b
+#             is covered by the bounded mutation harness of C13).
+# NOT PROVED: EccKey.__eq__ between keys of DIFFERENT curves (native cmp with foreign contexts is outside the per-curve model).
+# NOT PROVED: round trips that need field algebra: compressed SEC1 (y recovered from x: curve equation + 'a quadratic has two roots' lemma), EdDSA raw
+#             (x recovered from y, RFC 8032 5.1.3), RFC 5915 / PKCS#8 / SubjectPublicKeyInfo for ECC (explicit tags, DerBitString not in the exact codec);
+#             export_key's dispatch and the PEM / OpenSSH text layers.  Proved round trips: SEC1 uncompressed (5 NIST curves), X25519 / X448 raw.
+# NOT PROVED (solver): in sec1 / decode.ed* the clauses hold on the unchanged tree, but z3 cannot FIND counter-models of mutants whose witness needs the
+#             non-linear terms x^3 - 3x + b or (y^2 - 1) / (d y^2 + 1) modulo a 255..521-bit prime (time-out = exit 2, never reported as a violation).
